@@ -71,6 +71,10 @@ open_("D17b", "C15", "ALTER TABLE ... DROP COLUMN of the last column can leave t
 open_("X1b", "C15", "CREATE UNIQUE INDEX in autocommit while an older session is open: that session can no longer use the table ('Table not found N')", "O-res", "create_index_inside_session", "findings/X1b-create-index-while-older-session-open-hides-table-from-it.json")
 open_("X3", "C15", "a UNIQUE index over columns of different types listed out of table order panics (types/core.rs:333) on the first duplicate probe", "O-res", "mixed_type_index_out_of_table_order", "findings/X3-multi-column-index-out-of-table-order-panics-on-duplicate.json")
 
+# ---- open findings: B+tree (C10 / C11) ----
+for prop in ("C10", "C11"):
+    open_("D31c", prop, "with uniform 400-byte payloads on 4 KiB pages a rebalance leaves a separator that misroutes (a key smaller than the separator in its right subtree) after ~100 operations", "O-structure", "payload_400", "findings/D31c-separator-misroutes-after-rebalance-with-400-byte-payloads.json")
+
 # ---- open findings: threads (C14) ----
 open_("T1", "C14", "two client threads inserting into the same table lose acknowledged rows (final COUNT(*) below the number of acknowledged inserts; COUNT(*) below what was acknowledged before it started)", "O-state", "concurrent_inserts_into_one_table", "findings/T1-concurrent-inserts-into-one-table-lose-acknowledged-rows.json")
 
